@@ -16,6 +16,7 @@ import (
 )
 
 type Clause struct {
+	Optional bool // track clauses: the pattern may match no call site
 	Kind    string // requires ensures invariant decreases atcall track modifies axiom
 	Props   []string
 	Src     string
@@ -360,7 +361,10 @@ func (cs *ContractSet) parseFile(path string, trusted bool) error {
 			if !ok {
 				return fmt.Errorf("%s:%d: track needs '<name> = <callee>'", path, s.line)
 			}
-			cur.Tracks = append(cur.Tracks, &Clause{Kind: "track", Name: strings.TrimSpace(name), Callee: strings.TrimSpace(pat), File: path, Line: s.line})
+			// "track n ?= callee": the callee need not be called at all (a counter that must stay 0)
+			opt := strings.HasSuffix(strings.TrimSpace(name), "?")
+			name = strings.TrimSuffix(strings.TrimSpace(name), "?")
+			cur.Tracks = append(cur.Tracks, &Clause{Kind: "track", Name: strings.TrimSpace(name), Callee: strings.TrimSpace(pat), File: path, Line: s.line, Optional: opt})
 		case "modifies":
 			cur.HasMod = true
 			for _, p := range splitTopLevel(rest, ',') {
